@@ -575,8 +575,29 @@ impl Relations {
             .map(|e| e.wrap_and_sort())
             .collect::<Vec<_>>();
         entries.sort();
+        // Substitution variables are kept, after the entries
+        let mut substvars = self
+            .0
+            .children()
+            .filter_map(Substvar::cast)
+            .collect::<Vec<_>>();
+        substvars.sort_by_key(|s| s.to_string());
         // TODO: preserve comments
-        Self::from(entries)
+        let mut builder = GreenNodeBuilder::new();
+        builder.start_node(ROOT.into());
+        let nodes = entries
+            .into_iter()
+            .map(|e| e.0)
+            .chain(substvars.into_iter().map(|s| s.0));
+        for (i, node) in nodes.enumerate() {
+            if i > 0 {
+                builder.token(COMMA.into(), ",");
+                builder.token(WHITESPACE.into(), " ");
+            }
+            inject(&mut builder, node);
+        }
+        builder.finish_node();
+        Relations(SyntaxNode::new_root_mut(builder.finish()))
     }
 
     /// Iterate over the entries in this relations field
